@@ -421,7 +421,7 @@ func TestVerifC02(t *testing.T) {
 		}
 		return
 	}
-	dev := vr.Pick(3, 4)
+	dev := vr.Pick(2, 3)
 	if v, err := strconv.Atoi(os.Getenv("VERIF_C02_DEV")); err == nil {
 		dev = v
 	}
